@@ -64,6 +64,10 @@ func Run(cfg hx.Config) (*hx.Meta, error) {
 		for i := 0; i < 12; i++ {
 			insts = append(insts, inst{carriers[r.Intn(nc)], carriers[r.Intn(nc)]})
 		}
+		// functions whose result type is their parameter type (the result could be written over the input)
+		for i := 0; i < nc; i += 2 {
+			insts = append(insts, inst{carriers[i], carriers[i]})
+		}
 		seen := map[string]bool{}
 		var u []inst
 		for _, in := range insts {
